@@ -214,10 +214,17 @@ impl Service {
                     0 => Rq::Register { name: acct(rng), pw: pw(rng) },
                     1 | 2 => Rq::Login { name: acct(rng), pw: pw(rng) },
                     3 => {
-                        if rng.chance(1, 3) {
-                            // somebody else's (or nobody's) temporary account name
+                        if rng.chance(1, 2) {
+                            // somebody else's (or nobody's) temporary account name: log in as it,
+                            // or try to register it
                             let k = rng.below(3);
-                            Rq::Login { name: if small_names { format!("tmp-{k}") } else { format!("tmp-{:04}", k + 1) }, pw: pw(rng) }
+                            let name = if small_names { format!("tmp-{k}") } else { format!("tmp-{:04}", k + 1) };
+                            // (registering is an account-name collision: contended configuration only)
+                            if !contended || rng.chance(1, 2) {
+                                Rq::Login { name, pw: pw(rng) }
+                            } else {
+                                Rq::Register { name, pw: pw(rng) }
+                            }
                         } else {
                             Rq::Login { name: other_acct(rng), pw: pw(rng) }
                         }
@@ -876,7 +883,7 @@ impl<'a> Run<'a> {
                                 _ => {}
                             }
                             let tasks = self.w.tasks.clone();
-                            if let Some(v) = foreign_running_task(c, pname, &j, &tasks) {
+                            if let Some(v) = foreign_running_task(c, &acct, pname, &j, &tasks) {
                                 self.viol_client(c, v);
                             }
                             let exact = self.cl[c].exact && !self.case.faults;
@@ -896,7 +903,7 @@ impl<'a> Run<'a> {
                         let tasks = self.w.tasks.clone();
                         for p in j.as_array().cloned().unwrap_or_default() {
                             let pn = p["name"].as_str().unwrap_or("").to_string();
-                            if let Some(v) = foreign_running_task(c, &pn, &p, &tasks) {
+                            if let Some(v) = foreign_running_task(c, &self.cl[c].acct.clone().unwrap_or_default(), &pn, &p, &tasks) {
                                 self.viol_client(c, v);
                             }
                         }
@@ -962,7 +969,7 @@ impl<'a> Run<'a> {
 /// Non-interference on `running_tasks`: every task a client sees listed for one of its
 /// problems must be a task one of its own requests started (lenient about which of the
 /// client's accounts) that has not ended — never another client's task.
-fn foreign_running_task(c: usize, pname: &str, j: &serde_json::Value, tasks: &BTreeMap<u64, crate::world::TaskMeta>) -> Option<Violation> {
+fn foreign_running_task(c: usize, acct: &str, pname: &str, j: &serde_json::Value, tasks: &BTreeMap<u64, crate::world::TaskMeta>) -> Option<Violation> {
     for r in j["running_tasks"].as_array()? {
         let name = match (r["type"].as_str(), r["content"].as_str()) {
             (Some("Parse"), _) => "Parse".to_string(),
@@ -970,9 +977,15 @@ fn foreign_running_task(c: usize, pname: &str, j: &serde_json::Value, tasks: &BT
             _ => format!("{r}"),
         };
         let own = tasks.values().any(|t| t.client == c && t.adf_name == pname && t.task == name && !t.ended);
-        let foreign = tasks.values().any(|t| t.client != c && t.adf_name == pname && t.task == name && !t.ended);
-        if !own && foreign {
-            return Some(Violation::new("O5-non-interference", "foreign-running-task", format!("client {c} sees task {name} listed as running for its problem {pname}, but only another client has such a task in flight")));
+        let foreign: Vec<&crate::world::TaskMeta> = tasks.values().filter(|t| t.client != c && t.adf_name == pname && t.task == name && !t.ended).collect();
+        if !own && !foreign.is_empty() {
+            let v = Violation::new("O5-non-interference", "foreign-running-task", format!("client {c} ({acct}) sees task {name} listed as running for its problem {pname}, but only another client has such a task in flight (started under account {:?})", foreign.iter().map(|t| t.username.clone()).collect::<Vec<_>>()));
+            // cause: the viewer now holds the very account name under which the other client
+            // started the task (the account was deleted or renamed away while the task ran)
+            if !acct.is_empty() && foreign.iter().any(|t| t.username == acct) {
+                return Some(v.with_key("O5/config.rs:currently_running/task-of-former-holder-of-the-account-name".to_string()));
+            }
+            return Some(v);
         }
     }
     None
